@@ -8,7 +8,7 @@ COMMON_TRUST = [
 
 SSO_TRUST = [
     "Model.Sso is a hand-written model of ssoHandleFunc. Tie 1 (proof): ssoHandleFunc and getAuthRequestFromRequest are translated by go2lean on every run (chain handler: the closure literals registered with the checker.Checker are functions of the handler frame, fifteen Go.Step, CheckFailed() = Go.runChain = Model.Checker on the panic-absorbing state; storage.CreateAuthRequest is recorded in the effect trace with its arguments; the func(error) parameters of verifyRedirectSignature / verifyPostSignature are extra results of generated _wb variants proved equal to the plain ones) and SsoGen.sso_handler_refines proves, step lemma by step lemma, that for every answer of the environment (GetMetadata, ParseForm / FormValue / URL.Query, xml.DecodeAuthNRequest, GetServiceProvider, the two signature validators, time.Now / Parse, CreateAuthRequest, GetID, LoginURL, NewID as typed oracles) the regenerated handler does observably what Sso.sso does on the input read off from the same answers: same reply (HTTP 500 / failed Response with the same status, delivery parameters and InResponseTo / 303 to the login URL), same CreateAuthRequest call or none; C05_generated_handler, C06_generated_handler, C08_generated_handler, C09_generated_sso_handler state the properties on the regenerated handler. Tie 2 (correspondence): the sso differential (model vs implementation on every generated request, the model input derived with the library's own decoders)",
-    "environment contract of sso_handler_refines (EnvOK): a decoder / storage call that reports no error hands back a non-nil value, registered service providers carry their metadata (NewServiceProvider builds no other)",
+    "environment contract of sso_handler_refines (EnvOK): a decoder / storage call that reports no error hands back a non-nil value, registered service providers carry their metadata (NewServiceProvider builds no other); the decoder clause is a theorem about the regenerated xml.DecodeAuthNRequest / DecodeLogoutRequest (DecodeGen.decodeAuthN_value_iff_no_error, envOK_decode_of_generated) under the link that the decoder oracle is the library's decoder",
     "net/http form parsing, encoding/xml decoding, gorilla/mux routing are not modelled (the harness derives the model's input from them)",
 ]
 
@@ -83,8 +83,8 @@ PROPS = {
         "assumptions": ["Form.WF: the binding decision of getAuthRequestFromRequest is POST or Redirect (fingerprinted function; checked on every case by the sso correspondence)"],
     },
     "C06": {
-        "modules": ["SamlModel.Props.C06", "SamlModel.Props.SendBack", "SamlModel.Props.SsoGen", "SamlModel.Props.SsoProps", "SamlModel.Props.Stateless"],
-        "translated": ["IdentityProvider_ssoHandleFunc", "getAuthRequestFromRequest", "checkRequestRequiredContent", "checkIfRequestTimeIsStillValid", "verifyRequestDestinationOfAuthRequest", "ServiceProvider_GetEntityID"],
+        "modules": ["SamlModel.Props.C06", "SamlModel.Props.SendBack", "SamlModel.Props.SsoGen", "SamlModel.Props.SsoProps", "SamlModel.Props.DecodeGen", "SamlModel.Props.Stateless"],
+        "translated": ["DecodeAuthNRequest", "DecodeLogoutRequest", "IdentityProvider_ssoHandleFunc", "getAuthRequestFromRequest", "checkRequestRequiredContent", "checkIfRequestTimeIsStillValid", "verifyRequestDestinationOfAuthRequest", "ServiceProvider_GetEntityID"],
         "trusted_base": COMMON_TRUST + SSO_TRUST + [
             "time.Parse / time.Now are oracles (Ora.timeParse, Ora.now) in C06_accept_implies_valid and its corollaries; for the library's DefaultTimeFormat time.Parse is additionally modelled (Lib.Time.parseDefault, written from Go 1.23's time/format.go; compared with time.Parse on a boundary corpus and 2*10^4 (thorough 3*10^5) mutated strings on every run: `lib timeparse`) and C06_window_concrete / C06_zero_time_is_expired are stated over that model under the hypothesis ParsesAsGo; XML decoding (DecodeAuthNRequest incl. base64/DEFLATE) is an oracle whose failure is `decoded = none`",
         ],
@@ -119,8 +119,8 @@ PROPS = {
         "assumptions": [],
     },
     "C13": {
-        "modules": ["SamlModel.Props.C13", "SamlModel.Props.LogoutGen", "SamlModel.Props.LogoutProps", "SamlModel.Props.Stateless"],
-        "translated": ["checkIfRequestTimeIsStillValid", "makeLogoutResponse", "getIssuer", "IdentityProvider_logoutHandleFunc", "getLogoutRequestFromRequest",
+        "modules": ["SamlModel.Props.C13", "SamlModel.Props.LogoutGen", "SamlModel.Props.LogoutProps", "SamlModel.Props.DecodeGen", "SamlModel.Props.Stateless"],
+        "translated": ["DecodeAuthNRequest", "DecodeLogoutRequest", "checkIfRequestTimeIsStillValid", "makeLogoutResponse", "getIssuer", "IdentityProvider_logoutHandleFunc", "getLogoutRequestFromRequest",
                        "LogoutResponse_makeFailedLogoutResponse", "LogoutResponse_makeSuccessfulLogoutResponse", "LogoutResponse_sendBackLogoutResponse"],
         "trusted_base": COMMON_TRUST + SLO_TRUST + [
             "makeLogoutResponse / getIssuer are translated and proved to refine Logout.mkMsg (C13_builder_refines); C13_generated_one_response / _success_iff / _delivery state the property on the regenerated handler",
